@@ -6,7 +6,7 @@ import io
 import random
 
 from sim import gen
-from sim.core import REPO, Discard, Violation
+from sim.core import REPO, Discard, Violation, cache_knobs
 from sim.observe import observe
 from sim.sched import HarnessError, Sched
 
@@ -65,7 +65,9 @@ def gen_case(rng: random.Random, tier: str):
         threads.append({"data_seed": rng.getrandbits(32), "data": None, "ops": ops, "root": rng.randrange(8)})
     return {"cfg": cfg, "defs": defs, "threads": threads, "sched_seed": rng.getrandbits(32),
             "n_sched": 16 if tier == "quick" else 60, "trace_enum": rng.random() < 0.3, "opcodes": False,
-            "schedules": None, "order": rng.sample(range(nthreads), nthreads)}
+            "schedules": None, "order": rng.sample(range(nthreads), nthreads),
+            # tuning knob: capacity of the library's module-level caches for this case (None = as shipped)
+            "cache_size": rng.choice([None, None, 1, 2, 3, 5])}
 
 
 def _walk_pointers(v, out, depth=0):
@@ -134,6 +136,10 @@ def _load(case):
 
 
 def run_case(case, stats):
+    if case.get("cache_size") is not None:
+        n_knobs = cache_knobs(case["cache_size"])
+        stats.count("probe.cache_capacity_%d" % case["cache_size"])
+        stats.count("fault.cache_capacity_shrunk", n_knobs)
     try:
         cs, root = _load(case)
     except Exception:
@@ -313,6 +319,11 @@ def shrink_candidates(case, vinfo):
             c = copy.deepcopy(case)
             c["threads"][ti]["ops"] = th["ops"][:-1]
             yield c
+    if case.get("cache_size") is not None:
+        c = copy.deepcopy(case)
+        c["cache_size"] = None
+        c["schedules"] = None
+        yield c
     for k in ("trace_enum", "opcodes"):
         if case[k]:
             c = copy.deepcopy(case)
